@@ -151,6 +151,22 @@ CHECKS = {
         "fuzzing / property-based testing: grammar + mutation generated sessions with a witness-session oracle and panic detection (+ libFuzzer session target in thorough)",
         "DESIGN.md §5 C17",
     ),
+    "C18": (
+        "process",
+        "fault_enumeration",
+        "Crash sampling against a real server process with the ReDB backend: 550 (thorough 38 k) generated bursts of 1-40 pipelined requests (set, cset, delete, pdelete, registrations and their withdrawal) by one client, stopped by SIGKILL right after a generated answer was read, SIGKILL after a 0-5 ms pause, or SIGTERM; a second process on the same directory is read back (value, kind, CAS version of every user key) and must equal the state after some prefix of the sequence of single-key changes with that prefix's registrations applied - the whole sequence after a clean stop. The fraction of real cuts (an acknowledged change missing) is measured and reported (~25 %).",
+        "Cuts depend on the background writer's timing and cannot be enumerated; they are sampled (level fault_enumeration refers to the enumerated stop kinds x generated positions, not to every cut). After a kill only the existence of an explaining prefix is required. One client only, so applied order = request order; the order inside a pdelete is taken from its answer.",
+        "fault injection (SIGKILL/SIGTERM of a real process at generated points) + proptest request bursts with a prefix-consistency oracle over a reference model",
+        "DESIGN.md §5 C18",
+    ),
+    "C19": (
+        "election (black box)",
+        "exploration",
+        "Generated peer scripts against the real worterbuch-cluster-orchestrator process (rebuilt from /repo), a stub server executable that logs its command line, and scripted peers on loopback UDP sockets: cluster sizes 1-7, configured quorum absent or 1-7, own priority, per peer silent / single / duplicate / late / unsolicited votes, competing candidates of lower/equal/higher priority with or without heartbeat, acknowledged or ignored heartbeats, votes and heartbeats of a non-member. A --leader start requires that by then >= quorum-1 distinct configured peers had sent a vote in answer to a vote request; a --follower start must point to the sync address of a configured peer that had announced itself. 160 runs quick, 6 k thorough.",
+        "Wall clock and real UDP: only safety is asserted and only 'sent so far' sets are used, so scheduling delays can only make the oracle more permissive. 'Unsolicited' = sent before the node's minimum election timeout can have expired. The in-process variant on stepped virtual time described in DESIGN.md was not built (see DESIGN.md §5 C19).",
+        "property-based testing / fuzzing of a protocol participant: proptest peer scripts against the real process with a quorum/membership safety invariant over the observed command lines",
+        "DESIGN.md §5 C19",
+    ),
     "C20": (
         "client",
         "exploration",
